@@ -72,6 +72,7 @@ func ownIPv6() net.IP {
 func feed6(cap6 *server.Capture6, dgram []byte, oob *ipv6.ControlMessage, peer *net.UDPAddr) (sent []server.Sent, panicked interface{}) {
 	defer func() {
 		if r := recover(); r != nil {
+			core.HarnessPanic(r)
 			panicked = r
 		}
 	}()
